@@ -32,6 +32,14 @@ def from_order(vec, n, order):
     return to_order(vec, n, order)      # bit reversal is an involution
 
 
+def pauli_expect(psi, term, n):
+    """<psi| P |psi> for the Pauli word `term` (tuple of (qubit, 'X'|'Y'|'Z'))."""
+    phi = psi
+    for q, p in term:
+        phi = R.apply_matrix(phi, n, R.PAULI[p], [q])
+    return float(np.vdot(psi, phi).real)
+
+
 def _num(v):
     """float of a frequency value (numpy float, or a sympy number possibly carrying a ~1e-20 imaginary rounding residue)."""
     try:
@@ -87,6 +95,9 @@ class GateSemanticsWorld(_DeviceBase):
         self._mk_backends()
         self.history = {}
         self.sig = set()
+        self.circ_pool = []       # long-lived circuit objects {"obj", "gates", "n"}: simulated repeatedly, modified in place in between
+        import os
+        os.environ["TANGELO_VERIF"] = "1"     # enables the guarded chunk-size knob (only read when TANGELO_VERIF_CHUNK_SIZE is set)
 
     def signature(self):
         return tuple(sorted(self.sig))[-8:]
@@ -94,11 +105,17 @@ class GateSemanticsWorld(_DeviceBase):
     def gen(self, step):
         rng, cfg = self.ctx.ops, self.config
         r = rng.random()
-        if self.history and r < 0.15:
+        if self.history and r < 0.12:
             key = rng.choice(sorted(self.history))
             return {"k": "repeat", "orig": json.loads(key)}
-        if r < 0.22:
-            return {"k": "set_shots", "b": rng.choice(["cirq_shots", "stub"]), "ns": rng.choice([1, 3, 50, 1000, 10 ** 4])}
+        if r < 0.2:
+            return {"k": "set_shots", "b": rng.choice(["cirq_shots", "stub"]), "ns": rng.choice([1, 3, 7, 14, 49, 50, 51, 100, 150, 1000, 10 ** 4])}
+        if r < 0.3 and self.circ_pool:
+            how = rng.choice(["reindex", "reindex", "add", "trim", "param"])
+            perm = list(range(8))
+            rng.shuffle(perm)
+            return {"k": "mutate_circ", "i": rng.randrange(8), "how": how, "perm": perm, "gate": C.gen_gate_j(rng, 2, allow=("one", "par", "c"), var_p=0.0),
+                    "angle": C.gen_angle(rng)}
         n = rng.randint(1, cfg["max_width"])
         if r < 0.60:
             b = "cirq"
@@ -116,7 +133,10 @@ class GateSemanticsWorld(_DeviceBase):
                 gates = D.gen_permutation_gates(rng, n, rng.randint(1, 5))
             wide = n + (rng.randint(0, 1) if rng.random() < 0.3 else 0)       # idle qubits
             init = C.gen_state(rng, wide) if rng.random() < cfg["init_p"] else None
-            return {"k": "exact", "b": b, "gates": gates, "n": wide, "init": init, "ret_sv": rng.random() < 0.8}
+            op = {"k": "exact", "b": b, "gates": gates, "n": wide, "init": init, "ret_sv": rng.random() < 0.8}
+            if b == "cirq" and rng.random() < 0.3:
+                op["reuse_circ"] = rng.randrange(8)
+            return op
         b = rng.choice(["cirq_shots", "cirq_shots", "stub"])
         perm = rng.random() < 0.45
         gates = D.gen_permutation_gates(rng, n, rng.randint(0, 6)) if perm else D.gen_unitary_gates(rng, n, rng.randint(1, 7), kinds=cfg["kinds"])
@@ -126,6 +146,10 @@ class GateSemanticsWorld(_DeviceBase):
         op = {"k": "sampled", "b": b, "gates": gates, "n": n, "init": init}
         if cfg["faults"] and self.ctx.faults.random() < cfg["bias_rate"]:
             op["bias"] = self.ctx.faults.choice(["low", "high", "alt"])
+        if b == "cirq_shots" and rng.random() < 0.4:
+            op["chunk"] = rng.choice([1, 3, 7, 50, 100])        # tuning knob: sampling chunk size (guarded hook)
+        if b == "cirq_shots" and rng.random() < 0.25:
+            op["reuse_circ"] = rng.randrange(8)
         return op
 
     # ------------------------------------------------------------------------------------------------------------------
@@ -135,6 +159,42 @@ class GateSemanticsWorld(_DeviceBase):
         if k == "set_shots":
             self.backends[op["b"]].n_shots = int(op["ns"])
             ctx.outcome(k, "ok")
+            return V
+        if k == "mutate_circ":
+            if not self.circ_pool:
+                ctx.outcome(k, "skipped")
+                return V
+            e = self.circ_pool[op["i"] % len(self.circ_pool)]
+            n = e["n"]
+            how = op["how"]
+            if how == "reindex":
+                perm = [p for p in op["perm"] if p < n]
+                e["obj"].reindex_qubits(perm)
+                e["gates"] = [[g[0], [perm[q] for q in g[1]], ([perm[q] for q in g[2]] if g[2] is not None else None), g[3], g[4]] for g in e["gates"]]
+            elif how == "add":
+                g = [op["gate"][0], [q % n for q in op["gate"][1]], ([q % n for q in op["gate"][2]] if op["gate"][2] is not None else None), op["gate"][3], False]
+                if g[2] is not None and set(g[1]) & set(g[2]):
+                    ctx.outcome(k, "skipped")
+                    return V
+                e["obj"].add_gate(C.j_to_gate(g))
+                e["gates"] = e["gates"] + [g]
+            elif how == "param":
+                # the parameters of the gates of a circuit may be modified in place (documented for variational workflows)
+                idx = [i for i, g in enumerate(e["gates"]) if g[0] in R.PARAMETERIZED]
+                if not idx:
+                    ctx.outcome(k, "skipped")
+                    return V
+                i = idx[op["i"] % len(idx)]
+                list(e["obj"])[i].parameter = op["angle"]
+                e["gates"][i] = [e["gates"][i][0], e["gates"][i][1], e["gates"][i][2], op["angle"], e["gates"][i][4]]
+            else:
+                ctx.outcome(k, "skipped")
+                return V
+            ctx.outcome(k, "ok")
+            ctx.probe("C01.circuit_object_modified_in_place_between_calls")
+            snap_now = [C.snap_to_j(x) for x in C.snap_circuit(e["obj"])]
+            if [g[:4] for g in snap_now] != [[g[0], list(g[1]), (list(g[2]) if g[2] is not None else None), g[3]] for g in e["gates"]]:
+                raise HarnessError(f"circuit pool model out of sync after {how}")
             return V
         if k == "repeat":
             orig = op["orig"]
@@ -156,15 +216,28 @@ class GateSemanticsWorld(_DeviceBase):
         ctx, V, k = self.ctx, [], op["k"]
         self._last = None
         b = self.backends[op["b"]]
-        n = op["n"]
         ctx.objects_touched.add(op["b"])
+        ce = None
+        if record and op.get("reuse_circ") is not None and self.circ_pool:
+            ce = self.circ_pool[op["reuse_circ"] % len(self.circ_pool)]
+            ctx.probe("C01.circuit_object_reused")
+        if ce is not None:
+            circ, gates_j, n = ce["obj"], ce["gates"], ce["n"]
+            init_j = op.get("init") if op.get("init") is not None and len(op["init"]) == 2 ** n else None
+        else:
+            gates_j, n = op["gates"], op["n"]
+            init_j = op.get("init")
+            circ = D.mk_circuit(gates_j, n)
+            if record and op["b"] in ("cirq", "cirq_shots") and 2 <= n <= 5 and len(gates_j) > 0:
+                self.circ_pool.append({"obj": circ, "gates": [list(g) for g in gates_j], "n": n})
+                self.circ_pool = self.circ_pool[-4:]
+        op = dict(op, gates=gates_j, n=n, init=init_j)
         ctx.objects_touched.add(("circ", len(op["gates"]), n))
         order = b.backend_info()["statevector_order"]
         init_ref = C.state_from_j(op["init"]) if op.get("init") is not None else None
         gates_ref = D.ref_gates(op["gates"])
         psi = R.run(gates_ref, n, init_ref)
         exact = R.distribution(psi, n, 1e-13)
-        circ = D.mk_circuit(op["gates"], n)
         snap = C.snap_circuit(circ)
         init_sut = None
         if init_ref is not None:
@@ -212,15 +285,22 @@ class GateSemanticsWorld(_DeviceBase):
             bias = op.get("bias")
             rngseam.SEAM.arm(vector_bias=bias)
             b0 = rngseam.SEAM.vector_biased
+            import os
+            if op.get("chunk"):
+                os.environ["TANGELO_VERIF_CHUNK_SIZE"] = str(int(op["chunk"]))
+                if ns % int(op["chunk"]) == 0:
+                    ctx.probe("C01.n_shots_multiple_of_chunk_size")
             try:
                 f, sv = b.simulate(circ, initial_statevector=init_sut)
             except Exception as ex:
+                os.environ.pop("TANGELO_VERIF_CHUNK_SIZE", None)
                 rngseam.SEAM.arm()
                 if op["b"] == "stub" and init_sut is not None:
                     ctx.outcome(k, "refused-as-expected")
                     return V
                 ctx.outcome(k, "refused-unexpectedly")
                 return [Violation("C01", "unexpected-refusal", site, {"exception": repr(ex)[:300], "op": op})]
+            os.environ.pop("TANGELO_VERIF_CHUNK_SIZE", None)
             rngseam.SEAM.arm()
             if bias and rngseam.SEAM.vector_biased > b0:
                 ctx.fault("rng_extreme")
@@ -243,7 +323,7 @@ class GateSemanticsWorld(_DeviceBase):
             self._last = {"f": fnum, "sv": None, "ns": ns}
         if C.snap_circuit(circ) != snap:
             V.append(Violation("C01", "source-circuit-mutated", site, {"op": op}))
-        if record and not V:
+        if record and not V and ce is None:
             self.history[json.dumps(op, sort_keys=True)] = self._last
             if len(self.history) > 6:
                 self.history.pop(sorted(self.history)[0])
@@ -297,12 +377,14 @@ class ExpectationWorld(_DeviceBase):
                 "n_shots": rng.choice([1, 7, 100, 5000] if not thorough else [1, 7, 100, 5000, 10 ** 5]),
                 "faults": rng.random() < 0.8, "sympy_budget": 1 if not thorough else 2,
                 "init_p": rng.choice([0.0, 0.4, 0.8]), "complex_p": rng.choice([0.0, 0.3, 0.6]),
-                "measure_p": rng.choice([0.0, 0.2, 0.4])}
+                "measure_p": rng.choice([0.0, 0.2, 0.4]), "wide_p": rng.choice([0.0, 0.05, 0.15])}
 
     def __init__(self, ctx, config=None):
         super().__init__(ctx, config)
         self._mk_backends()
         self.sig = set()
+        self.op_pool = []        # long-lived operator objects: {"obj", "val"}
+        self.circ_pool = []      # long-lived circuit objects: {"obj", "gates", "n"}
 
     def signature(self):
         return tuple(sorted(self.sig))[-8:]
@@ -323,7 +405,13 @@ class ExpectationWorld(_DeviceBase):
         rng, cfg = self.ctx.ops, self.config
         r = rng.random()
         if r < 0.08:
-            return {"k": "set_shots", "b": rng.choice(["cirq_shots", "stub"]), "ns": rng.choice([1, 3, 50, 1000, 5000])}
+            return {"k": "set_shots", "b": rng.choice(["cirq_shots", "stub"]), "ns": rng.choice([1, 3, 7, 14, 50, 100, 1000, 5000])}
+        if r < 0.2 and self.op_pool:
+            how = rng.choice(["scale", "add", "set", "iadd_self_copy"])
+            return {"k": "mutate_op", "i": rng.randrange(8), "how": how, "c": rng.choice([2.0, -1.0, 0.5, 3.0]),
+                    "term": [[rng.randrange(3), rng.choice("XYZ")]]}
+        if r < 0.26 and self.circ_pool:
+            return {"k": "mutate_circ", "i": rng.randrange(8), "gate": C.gen_gate_j(rng, 2, allow=("one", "par"), var_p=0.0)}
         n = rng.randint(1, cfg["max_width"])
         b = rng.choice(["cirq", "cirq", "cirq_shots", "cirq_shots", "stub"])
         if self.sympy_used < cfg["sympy_budget"] and rng.random() < 0.12:
@@ -343,6 +431,30 @@ class ExpectationWorld(_DeviceBase):
             what = "expval"
         op = {"k": what, "b": b, "terms": self._gen_terms(rng, n, rng.random() < cfg["complex_p"]), "gates": gates, "n": n,
               "init": init, "desired": desired}
+        if b in ("cirq", "cirq_shots") and rng.random() < cfg.get("wide_p", 0.0):
+            # wide register (>= 10 qubits, so that n_measurements + n_qubits >= 11): few gates, operator on a few qubits
+            n = rng.randint(10, 12)
+            gates = D.gen_unitary_gates(rng, n, rng.randint(2, 6), kinds=("one", "par", "c"))
+            qs = rng.sample(range(n), 3)
+            gates += [["RY", [qs[0]], None, round(rng.uniform(0.3, 2.8), 4), False], ["CNOT", [qs[1]], [qs[0]], "", False]]
+            desired = None
+            if rng.random() < 0.7:
+                gates.append(["MEASURE", [qs[0]], None, "", False])
+                gates.append(["RX", [qs[2]], None, round(rng.uniform(0.3, 2.8), 4), False])
+                desired = rng.randrange(16) if rng.random() < 0.6 else None
+            terms = []
+            for _ in range(rng.randint(1, 3)):
+                tq = sorted(rng.sample(sorted(set(qs + [n - 1, n - 2, 0])), rng.randint(1, 3)))
+                terms.append([[[q, rng.choice("XYZ")] for q in tq], round(rng.uniform(-1, 1), 3) or 0.5])
+            op = {"k": "expval", "b": b, "terms": terms, "gates": gates, "n": n, "init": None, "desired": desired, "wide": True}
+            return op
+        if b == "cirq_shots" and rng.random() < 0.3:
+            op["chunk"] = rng.choice([1, 7, 50, 100])
+        # long-lived operator / circuit objects: reuse an object handed to an earlier call, possibly modified in place since
+        if rng.random() < 0.35:
+            op["reuse_op"] = rng.randrange(8)
+        if rng.random() < 0.25 and desired is None:
+            op["reuse_circ"] = rng.randrange(8)
         if cfg["faults"] and b == "stub" and self.ctx.faults.random() < 0.15:
             op["init"] = C.gen_state(self.ctx.faults, n)
             op["fault"] = "unsupported_on_backend.initial_statevector"
@@ -358,27 +470,90 @@ class ExpectationWorld(_DeviceBase):
             self.backends[op["b"]].n_shots = int(op["ns"])
             ctx.outcome(k, "ok")
             return V
+        if k == "mutate_op":
+            if not self.op_pool:
+                ctx.outcome(k, "skipped")
+                return V
+            e = self.op_pool[op["i"] % len(self.op_pool)]
+            t = tuple(sorted((int(q), str(p)) for q, p in op["term"]))
+            c = float(op["c"])
+            if op["how"] == "scale":
+                e["obj"] *= c
+                e["val"] = {tt: cc * c for tt, cc in e["val"].items()}
+            elif op["how"] == "add":
+                inc = QubitOperator()
+                inc.terms = {t: c}
+                e["obj"] += inc
+                e["val"][t] = e["val"].get(t, 0) + c
+            elif op["how"] == "set":
+                e["obj"].terms[t] = c
+                e["val"][t] = c
+            else:
+                e["obj"] += e["obj"].__class__.from_openfermion(e["obj"]) if hasattr(e["obj"], "from_openfermion") else e["obj"]
+                e["val"] = {tt: 2 * cc for tt, cc in e["val"].items()}
+            e["val"] = {tt: cc for tt, cc in e["val"].items() if abs(cc) > 1e-12}
+            e["obj"].terms = {tt: cc for tt, cc in e["obj"].terms.items() if abs(cc) > 1e-12}
+            ctx.outcome(k, "ok")
+            ctx.probe("C02.operator_object_modified_in_place_between_calls")
+            return V
+        if k == "mutate_circ":
+            if not self.circ_pool:
+                ctx.outcome(k, "skipped")
+                return V
+            e = self.circ_pool[op["i"] % len(self.circ_pool)]
+            g = [op["gate"][0], [q % e["n"] for q in op["gate"][1]], None, op["gate"][3], False]
+            e["obj"].add_gate(C.j_to_gate(g))
+            e["gates"] = e["gates"] + [g]
+            ctx.outcome(k, "ok")
+            ctx.probe("C02.circuit_object_modified_in_place_between_calls")
+            return V
         b = self.backends[op["b"]]
-        n = op["n"]
         ns = b.n_shots
         ctx.objects_touched.add(op["b"])
-        ctx.objects_touched.add(("op", len(op["terms"]), n))
         order = b.backend_info()["statevector_order"]
-        # operator (value model + SUT object)
-        val = {}
-        for tj, c in op["terms"]:
-            t = tuple(sorted((int(q), str(p)) for q, p in tj))
-            cc = complex(c[0], c[1]) if isinstance(c, list) else float(c)
-            val[t] = val.get(t, 0) + cc
-        qop = QubitOperator()
-        qop.terms = dict(val)
+        # state-preparation circuit: a fresh object, or a long-lived one handed to an earlier call
+        ce = None
+        if op.get("reuse_circ") is not None and self.circ_pool:
+            ce = self.circ_pool[op["reuse_circ"] % len(self.circ_pool)]
+            ctx.probe("C02.circuit_object_reused")
+        if ce is not None:
+            circ, gates_j, n = ce["obj"], ce["gates"], ce["n"]
+            op_init = None
+        else:
+            gates_j, n = op["gates"], op["n"]
+            circ = D.mk_circuit(gates_j, n)
+            op_init = op.get("init")
+            if not D.has(gates_j, "MEASURE") and n <= 5:
+                self.circ_pool.append({"obj": circ, "gates": list(gates_j), "n": n})
+                self.circ_pool = self.circ_pool[-4:]
+        ctx.objects_touched.add(("op", len(op["terms"]), n))
+        # operator (value model + SUT object): fresh, or a long-lived object possibly modified in place since its last use
+        oe = None
+        if op.get("reuse_op") is not None and self.op_pool and op.get("fault") != "rejected_op.operator_beyond_circuit":
+            oe = self.op_pool[op["reuse_op"] % len(self.op_pool)]
+            ctx.probe("C02.operator_object_reused")
+        if oe is not None:
+            qop, val = oe["obj"], dict(oe["val"])
+        else:
+            val = {}
+            for tj, c in op["terms"]:
+                t = tuple(sorted((int(q), str(p)) for q, p in tj))
+                cc = complex(c[0], c[1]) if isinstance(c, list) else float(c)
+                val[t] = val.get(t, 0) + cc
+            qop = QubitOperator()
+            qop.terms = dict(val)
+            if op.get("fault") != "rejected_op.operator_beyond_circuit" and not op.get("wide"):
+                self.op_pool.append({"obj": qop, "val": dict(val)})
+                self.op_pool = self.op_pool[-4:]
+        if not val:
+            ctx.outcome(k, "skipped")
+            return V
         cplx = any(isinstance(c, complex) for c in val.values())
-        init_ref = C.state_from_j(op["init"]) if op.get("init") is not None else None
-        circ = D.mk_circuit(op["gates"], n)
+        init_ref = C.state_from_j(op_init) if op_init is not None and len(op_init) == 2 ** n else None
         snap = C.snap_circuit(circ)
-        has_meas = D.has(op["gates"], "MEASURE")
+        has_meas = D.has(gates_j, "MEASURE")
         st0 = init_ref if init_ref is not None else R.zero_state(n)
-        tree = R.branches(D.ref_gates(op["gates"]), n, st0, None, max_meas=4)
+        tree = R.branches(D.ref_gates(gates_j), n, st0, None, max_meas=4)
         desired = None
         if has_meas and op.get("desired") is not None:
             cands = [br for br in tree if br.prob >= 0.05] or tree
@@ -388,14 +563,14 @@ class ExpectationWorld(_DeviceBase):
                 return V
             desired = br.outcomes
             p_branch = br.prob
-            rho = np.outer(br.state, br.state.conj())
+            mixture = [(1.0, br.state)]
         else:
-            rho = sum(brr.prob * np.outer(brr.state, brr.state.conj()) for brr in tree)
+            mixture = [(brr.prob, brr.state) for brr in tree]
         beyond = any(q >= n for t in val for q, _ in t)
         if not beyond:
-            H = M.dense(val, n)
-            e_exact = complex(np.trace(rho @ H))
-            pk = {t: float(np.trace(rho @ M.dense_word(t, n)).real) for t in val}
+            # <P_t> on the (post-selected or dephased-mixture) state, term by term, without dense matrices
+            pk = {t: float(sum(p * pauli_expect(psi_b, t, n) for p, psi_b in mixture)) for t in val}
+            e_exact = complex(sum(complex(c) * pk[t] for t, c in val.items()))
         init_sut = None
         if init_ref is not None:
             init_sut = to_order(init_ref, n, order) if order else init_ref
@@ -406,12 +581,17 @@ class ExpectationWorld(_DeviceBase):
         # expectation: documented refusals
         expect = "ok"
         if beyond:
-            expect = "reject"
+            # An operator reaching beyond the circuit width: Tangelo's own guard compares the width with the *number of
+            # factors* of each term, so some routes refuse and others evaluate on a register padded with |0> qubits. The
+            # property does not speak about this case: undetermined, value not judged.
+            expect = "either"
         elif op["b"] == "stub" and init_ref is not None:
             expect = "reject"
         elif has_meas and desired is None and ns is None:
             expect = "reject"          # mixed state without shots and without desired outcome: documented ValueError
-        elif op["b"] == "sympy" and (has_meas or any(j[0] not in SYMPY_OK or len(j[2] or []) > 1 for j in op["gates"])):
+        elif op["b"] == "sympy" and len(gates_j) == 0:
+            expect = "either"          # empty preparation circuit on sympy: the generic route hands a 1-D numpy state to sympy, which refuses it
+        elif op["b"] == "sympy" and (has_meas or any(j[0] not in SYMPY_OK or len(j[2] or []) > 1 for j in gates_j)):
             expect = "either"
         elif has_meas and cplx and k != "expval":
             expect = "either"
@@ -431,6 +611,10 @@ class ExpectationWorld(_DeviceBase):
                 pass
             return r
         b.simulate = recorder
+        import os
+        os.environ["TANGELO_VERIF"] = "1"
+        if op.get("chunk") and ns is not None:
+            os.environ["TANGELO_VERIF_CHUNK_SIZE"] = str(int(op["chunk"]))     # tuning knob behind the guarded hook
         try:
             kw = {"initial_statevector": init_sut}
             if desired is not None:
@@ -446,6 +630,7 @@ class ExpectationWorld(_DeviceBase):
             exc = ex
         finally:
             del b.simulate
+            os.environ.pop("TANGELO_VERIF_CHUNK_SIZE", None)
         if exc is not None:
             if expect == "reject":
                 ctx.outcome(k, "refused-as-expected")
@@ -459,6 +644,9 @@ class ExpectationWorld(_DeviceBase):
         if expect == "reject":
             ctx.outcome(k, "accepted-invalid")
             return [Violation("C02", "documented-refusal-missing", site, {"returned": repr(got)[:80], "op": op})]
+        if beyond:
+            ctx.outcome(k, "ok-beyond-width-not-judged")
+            return V
         ctx.outcome(k, "ok")
         try:
             gotc = complex(got)
